@@ -119,6 +119,9 @@ def _check_cvc5(text, timeout_s):
     return r, time.time() - t0, err
 
 
+DOUBLE_CHECK = False
+
+
 def _work(job):
     idx, text, t_z3, t_cvc5, small = job
     try:
@@ -139,6 +142,14 @@ def _work(job):
                 r, model, why = r1, model1, why1
         dt += dt0
         backend = "z3"
+        if r == "unsat" and DOUBLE_CHECK:
+            # thorough tier: second opinion on every z3 `unsat`; a cvc5 `sat` is a solver disagreement (reported as undecided, never a verdict)
+            r2, dt2, err = _check_cvc5(text, min(t_cvc5, 20))
+            dt += dt2
+            if r2 == "sat":
+                return idx, "error", "z3", dt, None, "solver disagreement: z3 unsat, cvc5 sat"
+            if r2 == "unsat":
+                backend = "z3&cvc5"
         if r == "unknown" and t_cvc5 > 0:
             r2, dt2, err = _check_cvc5(text, t_cvc5)
             dt += dt2
@@ -154,8 +165,10 @@ def _work(job):
         return idx, "error", "z3", 0.0, None, "%s: %s" % (type(e).__name__, e)
 
 
-def discharge(obligations, t_z3_ms=20000, t_cvc5_s=30, procs=None, nosplit=False):
+def discharge(obligations, t_z3_ms=20000, t_cvc5_s=30, procs=None, nosplit=False, double_check=False):
     """obligations: list of engine.Obligation.  Returns dict name -> aggregated result."""
+    global DOUBLE_CHECK
+    DOUBLE_CHECK = double_check
     jobs = []
     meta = []
     for ob in obligations:
@@ -192,6 +205,8 @@ def discharge(obligations, t_z3_ms=20000, t_cvc5_s=30, procs=None, nosplit=False
         if r == "unsat":
             if backend == "cvc5":
                 a["backend"] = "z3+cvc5"
+            elif backend == "z3&cvc5":
+                a["confirmed_by_cvc5"] = a.get("confirmed_by_cvc5", 0) + 1
         elif r == "sat":
             if a["status"] != "failed":
                 a["status"] = "failed"
